@@ -3,6 +3,7 @@ import H5.Wire
 import H5.Model.Serializer
 import H5.Spec.Retokenize
 import Driver.SpecOps
+import H5.Model.Pipeline
 open H5 H5.Wire
 
 /-- `<mode:l|s|a> <quoteChar:nat> <best> <minimize> <solidus> <space> <lt> <rcdata> <resolve>` -/
@@ -32,6 +33,12 @@ def handleSer (ws : List String) : Option String :=
   | "ser" :: rest =>
     match run (do let o ← serOpts; let ts ← list tok; pure (o, ts)) rest with
     | some (o, ts) => some <| encExcept (fun r => s!"{encStr r.1} {encList encStr r.2}") (H5.Model.Serializer.serialize o ts)
+    | none => some "bad-request"
+  | "roundtrip" :: rest =>
+    match run (do let o ← serOpts; let om ← bool; let al ← bool; let ws ← bool; let t ← tree; pure (o, om, al, ws, t)) rest with
+    | some (o, om, al, ws, t) =>
+      some <| encExcept (fun r => s!"{encTree r.1} | {encStr r.2.1} | {encList encStr r.2.2}")
+        (H5.Model.Pipeline.roundTrip o { omitOptionalTags := om, alphabeticalAttributes := al, stripWhitespace := ws } t)
     | none => some "bad-request"
   | "retok" :: rest =>
     match run (do let st ← word; let cd ← bool; let sw ← list switch; let input ← str; pure (st, cd, sw, input)) rest with
